@@ -36,13 +36,13 @@ def chain(model):
         raise AnalysisError("%s: expected exactly one loop over the substitution list" % FIXER)
     lp = loops[0]
     if isinstance(lp.target, ast.Name) and len(lp.body) == 1 and isinstance(lp.body[0], ast.Assign) and isinstance(lp.body[0].value, ast.Call) \
-            and len(lp.body[0].value.args) == 1 and isinstance(lp.body[0].value.args[0], ast.Starred) and isinstance(lp.body[0].value.args[0].value, ast.Name) \
+            and len(lp.body[0].value.args) in (1, 2) and isinstance(lp.body[0].value.args[0], ast.Starred) and isinstance(lp.body[0].value.args[0].value, ast.Name) \
             and lp.body[0].value.args[0].value.id == lp.target.id and not lp.body[0].value.keywords \
             and sum(1 for x in ast.walk(lp) if isinstance(x, ast.Name) and x.id == lp.target.id) == 2:
         # `for pair in TABLE: s = s.replace(*pair)` is `for a, b in TABLE: s = s.replace(a, b)` (the table holds pairs: checked below)
         nm = lp.target.id
         lp.target = ast.copy_location(ast.Tuple(elts=[ast.Name(id=nm + "__0", ctx=ast.Store()), ast.Name(id=nm + "__1", ctx=ast.Store())], ctx=ast.Store()), lp.target)
-        lp.body[0].value.args = [ast.Name(id=nm + "__0", ctx=ast.Load()), ast.Name(id=nm + "__1", ctx=ast.Load())]
+        lp.body[0].value.args = [ast.Name(id=nm + "__0", ctx=ast.Load()), ast.Name(id=nm + "__1", ctx=ast.Load())] + lp.body[0].value.args[1:]  # (a count may follow)
         ast.fix_missing_locations(lp)
     if not (isinstance(lp.target, ast.Tuple) and len(lp.target.elts) == 2 and all(isinstance(x, ast.Name) for x in lp.target.elts)):
         raise AnalysisError("%s: loop target is not a pair" % FIXER)
